@@ -49,7 +49,7 @@ META = dict(
     ],
     need=["cmp_M=LR", "cmp_R=Lh", "cmp_M=Fisher", "cmp_LLh=Fisher", "cmp_L=dTh", "cmp_E[dTdT]=M",
           "cmp_energy", "cmp_amend", "cmp_sum", "cmp_freeze", "categorical_batched"],
-    quick=dict(cases=260, workers=6, budget_s=75),
+    quick=dict(cases=264, workers=8, budget_s=75),
     thorough=dict(cases=6000, workers=16, budget_s=800),
     design_ref="DESIGN.md §5 C12",
     level_text=("every identity is decided on complete dense matrices of the live objects at generated "
@@ -109,15 +109,21 @@ def npl(tree):
     return [np.asarray(l) for l in H.leaves(tree)]
 
 
-SINGLE = [(3,), (4,), (2, 2), (2, 3)]
-MULTI = [(2,), (3,), (2, 2)]
+SINGLE = [(3,), (2, 2)]
+MULTI = [(2,), (3,)]
+SINGLE_T = [(3,), (4,), (2, 2), (2, 3)]      # thorough tier: wider shape buckets
+MULTI_T = [(2,), (3,), (2, 2)]
+
+
+def buckets(S, quick, thorough):
+    return thorough if S.get("thorough") else quick
 
 
 # ------------------------------------------------------------------------ families
 def fam_gauss(S, rng, student=False):
     jnp = S["jnp"]
     jft = S["jft"]
-    kind, shapes = gen_container(rng, SINGLE, MULTI)
+    kind, shapes = gen_container(rng, buckets(S, SINGLE, SINGLE_T), buckets(S, MULTI, MULTI_T))
     cplx = (not student) and rng.random() < 0.35
     noises = ["none", "cov_arr", "cov_call", "std_call", "both_arr", "both_call", "dense"]
     noise = pick(rng, noises)
@@ -205,7 +211,7 @@ def fam_student(S, rng):
 
 def fam_poisson(S, rng):
     jnp, jft = S["jnp"], S["jft"]
-    kind, shapes = gen_container(rng, SINGLE, MULTI)
+    kind, shapes = gen_container(rng, buckets(S, SINGLE, SINGLE_T), buckets(S, MULTI, MULTI_T))
     d_np = [rng.poisson(3.0, s).astype(np.int64) for s in shapes]
     data = wrap(S, kind, d_np)
     b = B()
@@ -228,9 +234,10 @@ def fam_poisson(S, rng):
     return b
 
 
-CAT = [((3,), -1), ((4,), 0), ((1, 3), -1), ((2, 3), -1), ((3, 2), 0), ((2, 4), 1), ((3, 3), -1),
-       ((3, 3), 0), ((2, 2, 3), -1), ((2, 3, 2), 1)]
-CAT_MULTI = {-1: [(2, 3), (1, 3), (1, 2)], 0: [(3, 2), (2, 2), (3, 1)]}
+CAT = [((3,), -1), ((1, 3), -1), ((2, 3), -1), ((3, 2), 0), ((3, 3), -1), ((2, 2, 3), -1)]
+CAT_T = CAT + [((4,), 0), ((2, 4), 1), ((3, 3), 0), ((2, 3, 2), 1), ((4, 5), -1)]
+CAT_MULTI = {-1: [(2, 3), (1, 3)], 0: [(3, 2), (3, 1)]}
+CAT_MULTI_T = {-1: [(2, 3), (1, 3), (1, 2)], 0: [(3, 2), (2, 2), (3, 1)]}
 
 
 def fam_categorical(S, rng):
@@ -238,12 +245,13 @@ def fam_categorical(S, rng):
     r = rng.random()
     if r < 0.6:
         kind = "arr"
-        shp, axis = pick(rng, CAT)
+        shp, axis = pick(rng, buckets(S, CAT, CAT_T))
         shapes = [shp]
     else:
         kind = "vdict" if r < 0.85 else "vtuple"
         axis = int(pick(rng, [-1, 0]))
-        shapes = [pick(rng, CAT_MULTI[axis]), pick(rng, CAT_MULTI[axis])]
+        cm = buckets(S, CAT_MULTI, CAT_MULTI_T)
+        shapes = [pick(rng, cm[axis]), pick(rng, cm[axis])]
     d_np = []
     for s in shapes:
         ds = list(s)
@@ -303,7 +311,7 @@ def _ptype(S, rng):
 
 def fam_vcg(S, rng):
     jnp, jft = S["jnp"], S["jft"]
-    kind, shapes = gen_container(rng, [(3,), (2, 2), (4,)], [(2,), (3,)])
+    kind, shapes = gen_container(rng, buckets(S, [(3,), (2, 2)], [(3,), (2, 2), (4,)]), [(2,), (3,)])
     cplx = rng.random() < 0.4
     pname, pt = _ptype(S, rng)
 
@@ -362,7 +370,7 @@ def fam_vcg(S, rng):
 
 def fam_vcst(S, rng):
     jnp, jft = S["jnp"], S["jft"]
-    kind, shapes = gen_container(rng, [(3,), (2, 2), (4,)], [(2,), (3,)])
+    kind, shapes = gen_container(rng, buckets(S, [(3,), (2, 2)], [(3,), (2, 2), (4,)]), [(2,), (3,)])
     pname, pt = _ptype(S, rng)
     d_np = [rng.standard_normal(s) for s in shapes]
     data = wrap(S, kind, d_np)
@@ -400,7 +408,8 @@ def fam_vcst(S, rng):
     return b
 
 
-ND_SINGLE = [(1,), (2,), (3,), (2, 1), (2, 2), (2, 3)]
+ND_SINGLE = [(1,), (2,), (2, 1), (2, 2)]
+ND_SINGLE_T = [(1,), (2,), (3,), (2, 1), (2, 2), (2, 3)]
 ND_MULTI = {1: [(1,), (2, 1)], 2: [(2,), (2, 2)]}
 
 
@@ -408,7 +417,7 @@ def fam_ndvcg(S, rng):
     jnp, jft = S["jnp"], S["jft"]
     r = rng.random()
     if r < 0.7:
-        kind, shapes = "arr", [pick(rng, ND_SINGLE)]
+        kind, shapes = "arr", [pick(rng, buckets(S, ND_SINGLE, ND_SINGLE_T))]
     else:
         kind = "vdict" if r < 0.9 else "vtuple"
         d = int(pick(rng, [1, 2]))
@@ -530,7 +539,7 @@ def rand_free(S, rng, tmpl, scale=0.8):
     return H.real_to_tree(scale * rng.standard_normal(n), tmpl)
 
 
-def check_base(ck, S, rng, b, p, mats):
+def check_base(ck, S, rng, b, p, mats, full=True):
     """all single-likelihood identities at the point p"""
     M, L, R = mats
     cls = b.cls
@@ -555,8 +564,6 @@ def check_base(ck, S, rng, b, p, mats):
         Me, LLe = E.T @ M @ E, E.T @ (L @ L.T) @ E
         cmp(ck, "cmp_LLh=M_full", L @ L.T, M, f"LLh=M:{kv}",
             f"L.L^H of {cls} differs from its metric on the full tangent space", **wit)
-    if np.linalg.cond(F) > 1e6:
-        raise Skip_("Fisher matrix ill-conditioned")
     cmp(ck, "cmp_M=Fisher", Me, F, f"M=Fisher:{kv}",
         f"metric of {cls} is not the Fisher information of the documented distribution", **wit)
     cmp(ck, "cmp_LLh=Fisher", LLe, F, f"LLh=Fisher:{kv}",
@@ -579,8 +586,8 @@ def check_base(ck, S, rng, b, p, mats):
         cmp(ck, "cmp_dThdT=M", J.T @ J, M, f"dThdT=M:{cls}",
             f"transformation of {cls} does not pull the Euclidean metric back to metric", **wit)
     elif b.trafo == "local":
-        pts = b.sigma(p)
-        if len(pts) <= 24:
+        pts = b.sigma(p) if full else []
+        if 0 < len(pts) <= 24:
             acc = 0.0
             for dat in pts:
                 J = H.jac_real(b.make(dat).transformation, p)
@@ -590,7 +597,7 @@ def check_base(ck, S, rng, b, p, mats):
             if b.local_rows is not None:
                 ix = np.ix_(b.local_rows, b.local_rows)
                 A, Bm = acc[ix], M[ix]
-            cmp(ck, "cmp_E[dTdT]=M", A, Bm, f"E[dThdT]=M:{cls}",
+            cmp(ck, "cmp_E[dTdT]=M", A, Bm, f"E[dThdT]=M:{cls}:{b.variant}",
                 f"data average of the pulled-back Euclidean metric of the local transformation of "
                 f"{cls} differs from its metric", **wit)
     else:
@@ -615,15 +622,18 @@ def make_forward(S, rng, b, keys, in_tmpl=None):
     """harness-owned forward model  x (Vector of dict) -> valid point of b's domain"""
     jnp = S["jnp"]
     sizes = dict(XKEYS) if in_tmpl is None else {k: np.shape(v) for k, v in in_tmpl.items()}
-    nf = sum(int(np.prod(sizes[k])) for k in keys)
+    allk = sorted(sizes)
+    nf = sum(int(np.prod(sizes[k], dtype=int)) for k in allk)
+    mask = np.concatenate([np.full(int(np.prod(sizes[k], dtype=int)), float(k in keys)) for k in allk])
     nout = H.tree_real_size(b.dom_tmpl)
     kind = pick(rng, ["lin", "tanh", "quad", "sin"])
-    W = jnp.asarray(0.6 * rng.standard_normal((nout, nf)))
-    W1 = jnp.asarray(0.8 * rng.standard_normal((nf, nf)))
+    W = jnp.asarray(0.6 * rng.standard_normal((nout, nf)) * mask)
+    W1 = jnp.asarray(0.8 * rng.standard_normal((nf, nf)) * mask)
     bb = jnp.asarray(0.4 * rng.standard_normal(nout))
+    msk = jnp.asarray(mask)
 
     def f(x):
-        feat = jnp.concatenate([jnp.ravel(x[k]) for k in keys])
+        feat = jnp.concatenate([jnp.ravel(x[k]) for k in allk]) * msk
         if kind == "lin":
             z = W @ feat + bb
         elif kind == "tanh":
@@ -654,7 +664,7 @@ def tan_container(S, lh, tmpl_dict):
     return tmpl_dict
 
 
-def amended(S, rng, ck, b, keys, chained=False):
+def amended(S, rng, ck, b, keys, chained=False, full=True):
     """build lh.amend(f) and check the amend identities; returns record for sums/freezes"""
     jnp, jft = S["jnp"], S["jft"]
     x0 = S["x0"]
@@ -663,10 +673,13 @@ def amended(S, rng, ck, b, keys, chained=False):
         A = b.lh.amend(f)
     else:
         nmid = 4
-        Wm = jnp.asarray(0.7 * rng.standard_normal((nmid, sum(int(np.prod(dict(XKEYS)[k])) for k in keys))))
+        allk = sorted(k for k, _ in XKEYS)
+        mask = np.concatenate([np.full(int(np.prod(dict(XKEYS)[k], dtype=int)), float(k in keys))
+                               for k in allk])
+        Wm = jnp.asarray(0.7 * rng.standard_normal((nmid, mask.size)) * mask)
 
         def h(x):
-            feat = jnp.concatenate([jnp.ravel(x[k]) for k in keys])
+            feat = jnp.concatenate([jnp.ravel(x[k]) for k in allk])
             return jft.Vector({"m": jnp.tanh(Wm @ feat)})
         g, fd = make_forward(S, rng, b, ("m",), in_tmpl={"m": np.zeros(nmid)})
         A = b.lh.amend(g).amend(h)
@@ -675,7 +688,7 @@ def amended(S, rng, ck, b, keys, chained=False):
     y0 = f(x0)
     J = H.jac_real(f, x0)
     mats_in = probe(b.lh, y0, b.dom_tmpl, b.tan_tmpl)
-    check_base(ck, S, rng, b, y0, mats_in)
+    check_base(ck, S, rng, b, y0, mats_in, full=full)
     Mi, Li, Ri = mats_in
     MA, LA, RA = probe(A, x0, x0, b.tan_tmpl)
     w = dict(desc=b.desc, model=fd)
@@ -748,7 +761,10 @@ def case(ck, i):
     S = ck.state
     rng = ck.rng()
     comp = COMPS[int(rng.integers(0, len(COMPS)))]
-    fname, fam = FAMILIES[int(rng.integers(0, len(FAMILIES)))]
+    # family by case index: with 8 (or 16) workers dealing indices round-robin every worker
+    # sees one family only, which bounds the number of eagerly compiled XLA kernels per process
+    fname, fam = FAMILIES[i % len(FAMILIES)]
+    S["thorough"] = ck.thorough()
     S["x0"] = x_point(S, rng)
     try:
         desc = _run(ck, S, rng, comp, fam)
@@ -774,8 +790,9 @@ def _run(ck, S, rng, comp, fam):
         nsum = int(rng.integers(2, 4))
         recs = [amended(S, rng, ck, b, key_subset(rng, must="u"))]
         for _ in range(nsum - 1):
-            b2 = FAMILIES[int(rng.integers(0, len(FAMILIES)))][1](S, rng)
-            recs.append(amended(S, rng, ck, b2, key_subset(rng, must="u")))
+            fam2 = fam if rng.random() < 0.6 else pick(rng, [fam_gauss, fam_poisson])
+            b2 = fam2(S, rng)
+            recs.append(amended(S, rng, ck, b2, key_subset(rng, must="u"), full=False))
         lh = recs[0].lh + recs[1].lh
         if nsum == 3:
             lh = lh + recs[2].lh if rng.random() < 0.5 else S["jft"].likelihood.LikelihoodSum(
